@@ -60,7 +60,7 @@ fn o1_3_heading_total() {
     kani::cover!(d == Direction::TopLeft, "a heading other than Right is produced");
 }
 
-//@ harness: o1_4_merge_circle_total props=C01,C14 tier=quick obl=O1.4 timeout=900 mem=10
+//@ harness: o1_4_merge_circle_total props=C01,C14 tier=quick obl=O1.4 timeout=800 mem=10
 //@ desc: Line::merge_circle and Line::is_touching_circle never panic (panic!("There is no endpoint ...") unreachable) for any lattice line (|coords| <= 4096 quarter units), any lattice circle centre, any f32 radius, any atan result
 //@ encodes: Line::merge_circle, Line::is_touching_circle, Line::heading, Direction::threshold_length
 #[kani::proof]
@@ -155,7 +155,7 @@ fn long_run(dir: u8, max_k: i32, max_off_x: i32, max_off_y: i32) {
     }
 }
 
-//@ harness: o9_1_run_horizontal props=C09,C03 tier=quick obl=O9.1 timeout=1500 mem=8
+//@ harness: o9_1_run_horizontal props=C09,C03 tier=quick obl=O9.1 timeout=800 mem=8
 //@ desc: horizontal family (- ~ _ = rails): run of k cells (k symbolic 1..60) at any lattice origin within 64x64 cells merges with the next cell's segment into the exact hull, either call order; dashed iff a part is dashed
 //@ encodes: Line::merge, Line::can_merge, Line::is_touching, util::is_collinear, parry Segment::contains_point
 #[kani::proof]
@@ -164,7 +164,7 @@ fn o9_1_run_horizontal() {
     long_run(0, 60, 64, 64);
 }
 
-//@ harness: o9_1_run_vertical props=C09,C03 tier=quick obl=O9.1 timeout=1500 mem=8
+//@ harness: o9_1_run_vertical props=C09,C03 tier=quick obl=O9.1 timeout=800 mem=8
 //@ desc: vertical family (| : !): run of k cells (1..60) at any lattice origin within 64x64 cells merges with the next cell's segment into the exact hull
 //@ encodes: Line::merge, Line::can_merge, Line::is_touching, util::is_collinear, parry Segment::contains_point
 #[kani::proof]
@@ -173,7 +173,7 @@ fn o9_1_run_vertical() {
     long_run(1, 60, 64, 64);
 }
 
-//@ harness: o9_1_run_slash props=C09 tier=quick obl=O9.1 timeout=1800 mem=8
+//@ harness: o9_1_run_slash props=C09 tier=quick obl=O9.1 timeout=800 mem=8
 //@ desc: slash family (/): run of k cells (1..30) at any lattice origin within 16x16 cells (k <= 400, 400x200 cells in the thorough tier) merges with the next cell's segment into the exact hull
 //@ encodes: Line::merge, Line::can_merge, Line::is_touching, util::is_collinear, parry Segment::contains_point
 #[kani::proof]
@@ -182,7 +182,7 @@ fn o9_1_run_slash() {
     long_run(2, 30, 16, 16);
 }
 
-//@ harness: o9_1_run_backslash props=C09 tier=quick obl=O9.1 timeout=1800 mem=8
+//@ harness: o9_1_run_backslash props=C09 tier=quick obl=O9.1 timeout=800 mem=8
 //@ desc: backslash family (\): run of k cells (1..30) at any lattice origin within 16x16 cells (k <= 400, 400x200 cells in the thorough tier) merges with the next cell's segment into the exact hull
 //@ encodes: Line::merge, Line::can_merge, Line::is_touching, util::is_collinear, parry Segment::contains_point
 #[kani::proof]
@@ -369,7 +369,7 @@ fn two_lines(max_len: i32, max_pos: i32) -> (Line, Line) {
     )
 }
 
-//@ harness: o6_1_touching_exact props=C06,C05,C10 tier=quick obl=O6.1 timeout=2400 mem=14
+//@ harness: o6_1_touching_exact props=C06,C05,C10 tier=quick obl=O6.1 timeout=800 mem=14
 //@ desc: two axis-parallel lattice lines (horizontal or vertical each; diagonals in the thorough tier; 8x8 quarter-unit window, length <= 8) placed at any cell offset (k <= 8, n <= 8): is_touching at that position equals the exact integer predicate "an endpoint of one lies on the other" - which does not mention the offset, so touching (the basis of contact grouping and rectangle endorsement) is position independent
 //@ encodes: Line::absolute_position, Cell::absolute_position, Line::is_touching, Line::touching_line, parry Segment::contains_point
 #[kani::proof]
@@ -414,7 +414,7 @@ fn touching_exact(max_k: i32, max_n: i32, ndirs: u8) {
     assert!(got == expected, "O6.1 is_touching is exact (hence position independent) at every offset");
 }
 
-//@ harness: o6_1_aabb_shift props=C06,C05 tier=quick obl=O6.1 timeout=1200 mem=10
+//@ harness: o6_1_aabb_shift props=C06,C05 tier=quick obl=O6.1 timeout=800 mem=10
 //@ desc: same two lines and shift: is_aabb_parallel and is_aabb_perpendicular give identical answers (the exact float comparisons rectangle endorsement is built on)
 //@ encodes: Line::is_aabb_parallel, Line::is_aabb_perpendicular
 #[kani::proof]
@@ -456,7 +456,7 @@ fn kovl_line_overlaps_exact() {
 // ---------------------------------------------------------------------------
 // C14 — bullets: line + circle => marker line ending at the circle centre
 
-//@ harness: o14_4_merge_circle props=C14 tier=quick obl=O14.4 timeout=1800 mem=8
+//@ harness: o14_4_merge_circle props=C14 tier=quick obl=O14.4 timeout=800 mem=8
 //@ desc: axis-parallel or diagonal lattice line (length from one quarter-unit step, i.e. shorter than the merge threshold so that BOTH ends are close, up to 40 cells) whose nearer end is within half a cell of a bullet circle's centre m (cell at offset <= 64x64): merge_circle yields a MarkerLine from the far end to exactly the circle centre, marker Circle/OpenCircle/BigOpenCircle by is_filled/radius, dashedness kept; atan stubbed by atan_axis (libm value +-1e-4 for the slopes 0, +-2, +-4, +-inf that lattice lines have; any f32 otherwise)
 //@ encodes: Line::merge_circle, Line::heading, Direction::threshold_length, fragment::marker_line
 #[kani::proof]
